@@ -82,7 +82,7 @@ func SingleBucket(name string, fs afero.Fs, metaFs afero.Fs, opts ...SingleOptio
 // validKey reports whether name can be an object of this bucket. The scratch
 // file used for profiling the file system lives in the bucket, so it cannot.
 func (db *SingleBucketBackend) validKey(name string) bool {
-	return validObjectName(name) && name != modTimeProbeName
+	return validObjectName(name) && name != modTimeProbeName && !strings.HasPrefix(name, modTimeProbeName+"/")
 }
 
 func (db *SingleBucketBackend) ListBuckets() ([]gofakes3.BucketInfo, error) {
